@@ -171,6 +171,8 @@ def run_async_chunk(ctx, spec):
     if 1:
       p = rng.randrange(P)
       case['fault'] = {'p': p, 'at': rng.randint(0, lens[p])}
+      if P > 1 and rng.random() < 0.3:
+        case['endless_others'] = True
     run_async_one(ctx, case)
 
 
